@@ -25,6 +25,8 @@ def cases(O):
         import jsgen
         code = jsgen.program("%s/c06r" % O.seed, i, reserved_prefix="__datadog_t_", p_reserved=rng.choice([0.02, 0.05, 0.15]))
         cases.append({"id": "c06r-%d" % i, "config": cfg, "calls": [{"code": code, "file": "r.js"}], "opts": {}})
+    for k in (0, 1):
+        cases += E.catalogue_cases(O.seed, n // 2, "c06cat%d" % k, reserved="__datadog_t_%d" % k, prefix="t")
     return cases
 
 
@@ -39,19 +41,6 @@ def judge(ctx):
             seen.add(kind)
             out.append(Failure("hygiene: %s %s" % (kind, name), cls=CLASS_OF.get(kind)))
     return out
-
-
-def projection(ctx):
-    ok, why = E.model_ok(ctx)
-    if not ok:
-        return ok, why
-    m = ctx.m
-    if m.get("model") == "ok" and ctx.ok:
-        a = sorted(set(k for k, _ in m.get("model:out_hygiene") or []))
-        b = sorted(set(k for k, _ in m.get("out_hygiene") or []))
-        if a != b:
-            return False, "hygiene verdicts differ (model %s, implementation %s)" % (a, b)
-    return True, ""
 
 
 def nontrivial(ctx):
